@@ -164,3 +164,38 @@ def programs(seed, count, depths=(3, 4, 5, 6), maxlen=3, family='core', payload=
                      'sel': rng.choice([0, 1, 2, 3, 7]), 'in': p}
         out.append(p)
     return out
+
+
+def _builds(p):
+    import warnings
+    from .build import build
+    try:
+        with warnings.catch_warnings():
+            warnings.simplefilter('ignore')
+            build(p)
+        return True
+    except Exception:
+        return False
+
+
+def shared_programs(seed, count, depths=(1, 2, 3, 4), maxlen=3):
+    """Pipelines consumed through a worker pool: prefetch / parallel map with
+    2..3 workers on top of a random pipeline (the workers index one shared
+    dataset object)."""
+    rng = random.Random(seed * 7 + 1)
+    out = []
+    while len(out) < count:
+        p = program(rng, depths[len(out) % len(depths)], maxlen, 'core', 'i')
+        if rng.random() < 0.5:
+            p = {'op': 'map', 'f': rng.choice(['inc', 'wrap']), 'in': p}
+        w = rng.choice([2, 2, 3])
+        if rng.random() < 0.75:
+            p = {'op': 'prefetch', 'w': w, 'bs': rng.randint(w, 4), 'cfe': 'none', 'in': p}
+        else:
+            p = {'op': 'pmap', 'f': rng.choice(['inc', 'wrap']), 'w': w, 'bs': rng.randint(w, 4),
+                 'in': p}
+        # most random pipelines are refused by a pool prefetch (not indexable,
+        # no len): keep every 8th of those, all of the others
+        if _builds(p) or rng.random() < 0.125:
+            out.append(p)
+    return out
